@@ -36,6 +36,9 @@ fn report(what: &str, a: &Fam, b: Option<&Fam>, got: &Fam, want: &Fam) -> ! {
 
 fn main() {
     let nvars: u32 = std::env::args().nth(1).and_then(|s| s.parse().ok()).unwrap_or(3);
+    // property class: C06 (set algebra / count / contains / iteration), C07 (canonicity, from_set normalisation, gc), C03 (Kleene extension), all
+    let class: String = std::env::args().nth(2).unwrap_or_else(|| "all".into());
+    let on = |c: &str| class == "all" || class == c;
     let fams = families(nvars);
     let mut checked = 0u64;
     // shared arena: every operation runs against the same persistent caches
@@ -43,17 +46,17 @@ fn main() {
     let hs: Vec<ZddHandle> = fams.iter().map(|f| arena_build(&mut ar, f)).collect();
     for (f, h) in fams.iter().zip(&hs) {
         let got = arena_fam(&ar, *h);
-        if &got != f { report("arena.build(from_set+union)/iter", f, None, &got, f); }
-        if ar.count(*h) != f.len() { println!("WITNESS op=arena.count a={:?} real_result={} expected={}", f, ar.count(*h), f.len()); std::process::exit(1); }
+        if on("C06") && &got != f { report("arena.build(from_set+union)/iter", f, None, &got, f); }
+        if on("C06") && ar.count(*h) != f.len() { println!("WITNESS op=arena.count a={:?} real_result={} expected={}", f, ar.count(*h), f.len()); std::process::exit(1); }
         for s in subsets(nvars + 1) {
             let v: Vec<u32> = s.iter().copied().collect();
-            if ar.contains(*h, &v) != f.contains(&s) { println!("WITNESS op=arena.contains a={:?} set={:?} real_result={}", f, s, ar.contains(*h, &v)); std::process::exit(1); }
+            if on("C06") && ar.contains(*h, &v) != f.contains(&s) { println!("WITNESS op=arena.contains a={:?} set={:?} real_result={}", f, s, ar.contains(*h, &v)); std::process::exit(1); }
         }
         for v in 0..=nvars {
             let r = ar.product_with_optional(*h, v);
             let got = arena_fam(&ar, r);
             let want = pwo(f, v);
-            if got != want { println!("WITNESS op=arena.product_with_optional var={} a={:?} real_result={:?} expected={:?}", v, f, got, want); std::process::exit(1); }
+            if (on("C03") || on("C06")) && got != want { println!("WITNESS op=arena.product_with_optional var={} a={:?} real_result={:?} expected={:?}", v, f, got, want); std::process::exit(1); }
             checked += 1;
         }
     }
@@ -61,24 +64,65 @@ fn main() {
         for (j, b) in fams.iter().enumerate() {
             let (ha, hb) = (hs[i], hs[j]);
             let u = ar.union(ha, hb); let got = arena_fam(&ar, u); let want: Fam = a.union(b).cloned().collect();
-            if got != want { report("arena.union", a, Some(b), &got, &want); }
+            if on("C06") && got != want { report("arena.union", a, Some(b), &got, &want); }
             let u = ar.intersection(ha, hb); let got = arena_fam(&ar, u); let want: Fam = a.intersection(b).cloned().collect();
-            if got != want { report("arena.intersection", a, Some(b), &got, &want); }
+            if on("C06") && got != want { report("arena.intersection", a, Some(b), &got, &want); }
             let u = ar.difference(ha, hb); let got = arena_fam(&ar, u); let want: Fam = a.difference(b).cloned().collect();
-            if got != want { report("arena.difference", a, Some(b), &got, &want); }
+            if on("C06") && got != want { report("arena.difference", a, Some(b), &got, &want); }
             checked += 3;
             // canonicity: same family => same root
-            if (a == b) != (ha == hb) { println!("WITNESS op=arena.canonicity a={:?} b={:?} roots {:?} {:?}", a, b, ha, hb); std::process::exit(1); }
+            if on("C07") && (a == b) != (ha == hb) { println!("WITNESS op=arena.canonicity a={:?} b={:?} roots {:?} {:?}", a, b, ha, hb); std::process::exit(1); }
         }
     }
-    // gc keeps live families
-    let live: Vec<ZddHandle> = hs.iter().step_by(3).copied().collect();
-    let (_st, new) = ar.gc(&live);
-    for (k, h) in new.iter().enumerate() {
-        let got = arena_fam(&ar, *h);
-        if got != fams[k * 3] { report("arena.gc", &fams[k * 3], None, &got, &fams[k * 3]); }
+    // from_set normalises its argument: every vector (unsorted, with repeats) over the variables, length <= 3
+    if on("C07") || on("C06") {
+        let mut vecs: Vec<Vec<u32>> = vec![vec![]];
+        for a in 0..nvars { vecs.push(vec![a]); for b in 0..nvars { vecs.push(vec![a, b]); for c in 0..nvars { vecs.push(vec![a, b, c]); } } }
+        for v in &vecs {
+            let set: BTreeSet<u32> = v.iter().copied().collect();
+            let canon: Vec<u32> = set.iter().copied().collect();
+            let h = ar.from_set(v);
+            let hc = ar.from_set(&canon);
+            let got = arena_fam(&ar, h);
+            let want: Fam = std::iter::once(set.clone()).collect();
+            if got != want { println!("WITNESS op=arena.from_set elements={:?} real_result={:?} expected={:?}", v, got, want); std::process::exit(1); }
+            if on("C07") && h != hc { println!("WITNESS op=arena.from_set/canonicity elements={:?} root={:?} but from_set({:?}) root={:?} (same family, different roots)", v, h, canon, hc); std::process::exit(1); }
+            let z = Zdd::from_set(v);
+            let got = zdd_fam(&z);
+            if got != want { println!("WITNESS op=zdd.from_set elements={:?} real_result={:?} expected={:?}", v, got, want); std::process::exit(1); }
+            if on("C07") && z.node_count() != Zdd::from_set(&canon).node_count() { println!("WITNESS op=zdd.from_set/canonicity elements={:?} node_count={} but from_set({:?}) has {}", v, z.node_count(), canon, Zdd::from_set(&canon).node_count()); std::process::exit(1); }
+            checked += 2;
+        }
+    }
+    // gc keeps live families and canonicity (live handles overlap and repeat)
+    if on("C07") {
+        let mut live: Vec<ZddHandle> = hs.iter().step_by(3).copied().collect();
+        let nl = live.len();
+        live.push(hs[0]); live.push(hs[hs.len() - 1]); live.push(hs[3 % hs.len()]);
+        let (_st, new) = ar.gc(&live);
+        for (k, h) in new.iter().take(nl).enumerate() {
+            let got = arena_fam(&ar, *h);
+            if got != fams[k * 3] { report("arena.gc", &fams[k * 3], None, &got, &fams[k * 3]); }
+        }
+        for i in 0..nl { for j in 0..nl {
+            if (fams[i * 3] == fams[j * 3]) != (new[i] == new[j]) { println!("WITNESS op=arena.gc/canonicity a={:?} b={:?} roots after gc {:?} {:?}", fams[i * 3], fams[j * 3], new[i], new[j]); std::process::exit(1); }
+        } }
+        if new[nl] != new[0] || (hs.len() > 3 && new[nl + 2] != new[1]) { println!("WITNESS op=arena.gc/canonicity repeated live handle got a different root after gc: {:?} vs {:?}", new[nl], new[0]); std::process::exit(1); }
+        // rebuilding a live family in the collected arena must give the remapped root, and operations must still be right
+        for k in 0..nl {
+            let h2 = arena_build(&mut ar, &fams[k * 3]);
+            if h2 != new[k] { println!("WITNESS op=arena.gc/canonicity family={:?} remapped root {:?} but rebuilt root {:?} (same family, two roots)", fams[k * 3], new[k], h2); std::process::exit(1); }
+        }
+        for i in 0..nl { for j in 0..nl {
+            let u = ar.union(new[i], new[j]); let got = arena_fam(&ar, u); let want: Fam = fams[i * 3].union(&fams[j * 3]).cloned().collect();
+            if got != want { report("arena.union-after-gc", &fams[i * 3], Some(&fams[j * 3]), &got, &want); }
+            let hw = arena_build(&mut ar, &want);
+            if hw != u { println!("WITNESS op=arena.union-after-gc/canonicity a={:?} b={:?} union root {:?} but rebuilt root {:?}", fams[i * 3], fams[j * 3], u, hw); std::process::exit(1); }
+            checked += 1;
+        } }
     }
     // standalone Zdd API (smaller universe for the quadratic part)
+    if !(on("C06") || on("C03")) { println!("NO-WITNESS nvars={} class={} checked={}", nvars, class, checked); return; }
     let zn = nvars.min(2);
     let zf = families(zn);
     let zs: Vec<Zdd> = zf.iter().map(zdd_build).collect();
@@ -95,5 +139,5 @@ fn main() {
         let got = zdd_fam(&zs[i].product(&zs[j])); let want = prod(a, b); if got != want { report("zdd.product", a, Some(b), &got, &want); }
         checked += 4;
     } }
-    println!("NO-WITNESS nvars={} checked={}", nvars, checked);
+    println!("NO-WITNESS nvars={} class={} checked={}", nvars, class, checked);
 }
